@@ -204,7 +204,7 @@ theorem NTT_gen_buf_blocks (fuel : Nat) (hp : Heap) (self : NTT_Goldilocks) (o :
   have hnbt : (bv nb).toNat = nb := bv_toNat _ (by omega)
   unfold NTT_NTT
   rw [hc0, hs0]
-  simp only [Bool.or_false, Bool.false_eq_true, if_false, hclamp, hgt1, hdiv, hmod, hresd, hallocg, hbufn, if_true, hdst, hcnt,
+  simp only [Bool.or_false, Bool.false_eq_true, if_false, hclamp, hgt1, hdiv, hmod, hresd, hallocg, hbufn, if_true, hdst, add_toU64_ite, toU64_int_zero, BitVec.add_zero, hcnt,
     Heap.alloc_fst, Heap.alloc_snd, hnbt]
   have hZ' : (Array.replicate (2 ^ K * alloc) (0#64 : BitVec 64)) = Z := rfl
   have hz0 : (0#64 : BitVec 64) = bv 0 := rfl
@@ -279,7 +279,10 @@ theorem INTT_gen_buf_all (fuel : Nat) (hp : Heap) (self : NTT_Goldilocks) (o : M
   rw [hm]
   unfold NTT_INTT
   rw [hc0, hs0]
-  simp only [Bool.or_false, Bool.false_eq_true, if_false, hdst, bind_some_id]
+  simp only [Bool.or_false, Bool.false_eq_true, if_false, bind_some_id]
+  -- the destination selection, however it is written (if / else on a local, `?:` on `dst != NULL`, …)
+  ptr_norm at hdst ⊢
+  simp only [hdst]
   exact h
 
 end GoldilocksVerif.BridgeNtt
